@@ -558,3 +558,113 @@ def run_cursor(run, P, units=('coap_net.c', 'coap_ws.c', 'coap_tcp.c', 'coap_io.
         run.stats['stream_cursor_steps'] += ctx.steps
         run.oblige('R-STREAM-ADV', True, '%s:cursor-analysed' % name)
     run.require(nf >= 1 or run.fixture_mode, 'R-STREAM-ADV(cursor): no function with a parse cursor into a refilled receive buffer found')
+
+
+# ---------------------------------------------------------------------------------------------------------------
+DECODERS = ('coap_decode_var_bytes', 'coap_decode_var_bytes8')
+
+
+def peer_fields(P):
+    """session fields a peer can set: assigned from a decoded option value, directly or through a setter whose parameter ends up in the field"""
+    setters = {}          # function -> {param index: field}
+    for f in P.lib_funcs():
+        pidx = dict(('v%d' % p['id'], i) for i, p in enumerate(f['params']))
+        for b, ev in P.events(f):
+            t = ev['e']
+            if t.get('k') == 'asg' and t.get('op') == '=':
+                l = strip(t['l'])
+                if isinstance(l, dict) and l.get('k') == 'mem' and l.get('rec') == 'coap_session_t' and ap(strip(t['r'])) in pidx:
+                    setters.setdefault(f['name'], {})[pidx[ap(strip(t['r']))]] = l['f']
+    out = {}
+    for f in P.lib_funcs():
+        dec_locals = set()
+        for b, ev in P.events(f):
+            t = ev['e']
+            srcs = []
+            if t.get('k') == 'asg' and t.get('op') == '=':
+                srcs.append((t['l'], t['r'], ev['loc']))
+            for d in t.get('d') or ():
+                if d.get('init') is not None:
+                    srcs.append(({'k': 'var', 'id': d['id'], 'n': d['n']}, d['init'], ev['loc']))
+            for l, r, loc in srcs:
+                dec = any(isinstance(x, dict) and ((x.get('k') == 'call' and x.get('fn') in DECODERS) or ap(x) in dec_locals) for x in walk(r))
+                if not dec:
+                    continue
+                l0 = strip(l)
+                if isinstance(l0, dict) and l0.get('k') == 'mem' and l0.get('rec') == 'coap_session_t':
+                    out.setdefault(l0['f'], '%s (%s)' % (f['name'], loc.rsplit('/', 1)[-1]))
+                elif ap(l0):
+                    dec_locals.add(ap(l0))
+        for b, ev in P.events(f):
+            for t in walk(ev['e']):
+                if isinstance(t, dict) and t.get('k') == 'call' and t.get('fn') in setters:
+                    for i, fld in setters[t['fn']].items():
+                        if i < len(t.get('a') or []) and any(isinstance(x, dict) and ((x.get('k') == 'call' and x.get('fn') in DECODERS) or ap(x) in dec_locals) for x in walk(t['a'][i])):
+                            out.setdefault(fld, '%s via %s() (%s)' % (f['name'], t['fn'], ev['loc'].rsplit('/', 1)[-1]))
+    return out
+
+
+def run_cap_own(run, P):
+    """R-STREAM-CAP (own limit): the stream reader sizes the buffer for an incoming message -- and so the largest message it will collect
+    before it closes the session -- with a limit function (computed: the callee in the size argument of coap_pdu_init() in the functions of
+    CAP_SOURCES).  Inside that function, a return that is guarded by the non-zero test of a session field (our own announced maximum) is
+    computed without any field a peer can set (computed: session fields assigned from a decoded option value, directly or through a
+    setter).  Otherwise the peer's Max-Message-Size, not ours, decides how much is buffered."""
+    from core.psts import Env, solve, relevance, apply_generic
+    run.rule('R-STREAM-CAP')
+    limit_funcs = set()
+    for fname in CAP_SOURCES:
+        if not P.has(fname):
+            continue
+        for b, ev in P.events(P.func(fname)):
+            for t in walk(ev['e']):
+                if isinstance(t, dict) and t.get('k') == 'call' and t.get('fn') == 'coap_pdu_init' and len(t.get('a') or []) >= 4:
+                    for x in walk(t['a'][3]):
+                        if isinstance(x, dict) and x.get('k') == 'call' and x.get('fn') and P.has(x['fn']):
+                            limit_funcs.add(x['fn'])
+    run.require(bool(limit_funcs) or run.fixture_mode or run.cfg != 'base', 'R-STREAM-CAP(own limit): no limit function found in the size argument of coap_pdu_init() in %s' % (sorted(CAP_SOURCES),))
+    PEER = peer_fields(P)
+    run.require(bool(PEER) or not limit_funcs or run.fixture_mode, 'R-STREAM-CAP(own limit): no session field is assigned from a decoded option value any more')
+    run.notes.append('session fields a peer can set (computed): ' + ', '.join('%s <- %s' % kv for kv in sorted(PEER.items())))
+    for fn in sorted(limit_funcs):
+        f = P.func(fn)
+        guarded = [0]
+
+        def fld_test(c):
+            c = strip(c)
+            truthy = True
+            while isinstance(c, dict) and c.get('k') == 'un' and c.get('op') == '!':
+                c = strip(c['e'])
+                truthy = not truthy
+            if isinstance(c, dict) and c.get('k') == 'bin' and c.get('op') in ('!=', '>') and const_int(c['r']) == 0:
+                c = strip(c['l'])
+            if isinstance(c, dict) and c.get('k') == 'mem' and c.get('rec') == 'coap_session_t':
+                return c['f'], truthy
+            return None
+
+        def on_branch(b, s, env, ctx):
+            c = (b.get('term') or {}).get('cond')
+            if c is None or len(b['succ']) != 2:
+                return env
+            ft = fld_test(c)
+            if ft and ft[0] not in PEER and ((s == b['succ'][0]) == ft[1]):
+                e = env.copy()
+                e.ts['own'] = ft[0]
+                return e
+            return env
+
+        def on_event(ev, env, ctx):
+            t = ev['e']
+            if t.get('k') == 'ret' and t.get('e') is not None and env.ts.get('own'):
+                guarded[0] += 1
+                bad = sorted(set(x['f'] for x in walk(t['e']) if isinstance(x, dict) and x.get('k') == 'mem' and x.get('rec') == 'coap_session_t' and x['f'] in PEER))
+                run.oblige('R-STREAM-CAP', not bad, '%s:own-limit-return' % fn)
+                if bad:
+                    run.violation('R-STREAM-CAP', fn, ev['loc'], 'own-limit-from-peer-field:%s' % ','.join(bad),
+                                  'with our own maximum (%s) known to be set, the receive limit is computed from %s, which the peer sets (%s): the peer\'s announcement, not our '
+                                  'configuration, bounds what the stream reader buffers before it closes the session' %
+                                  (env.ts['own'], ', '.join(bad), PEER[bad[0]]), ctx.path())
+            return None
+        solve(f, Env(), on_event, None, None, None, key_fn=lambda e: e.ts.get('own'), on_branch=on_branch)
+        run.instance('R-STREAM-CAP', '%s: %d return path(s) under an own-limit test are free of peer-set fields' % (fn, guarded[0]))
+        run.require(guarded[0] > 0 or run.fixture_mode, 'R-STREAM-CAP(own limit): %s() has no return guarded by the test of a session field any more' % fn)
